@@ -578,7 +578,27 @@ def r02_8(ctx, prog, crate):
         ctx.fail("R02.8/ANCHOR", ["tuning-edge"], "the tuning edge could not be identified", None)
 
 
+def r02_9(ctx, prog, crate):
+    """Nothing but the benchmarked call runs in the timed closure the macro generates for an `args` benchmark:
+    `f(Arg::get(arg))` converts the argument inside the timed section, so every Arg::get is a plain copy / reborrow - its
+    body calls no user code (no Clone::clone, no ToOwned), only the two Deref coercions of Cow and String."""
+    n = 0
+    for b in prog.lib_bodies(crate):
+        if "__private::Arg<" not in b.path or not b.path.endswith("::get") or b.kind not in ("Fn", "AssocFn"):
+            continue
+        n += 1
+        ctx.saw(b)
+        for c in b.live_calls():
+            ok = c.callee.endswith("as std::ops::Deref>::deref") and ("std::borrow::Cow" in c.callee or "std::string::String" in c.callee)
+            ctx.check(ok, "R02.9", [b.path, "no-user-code", c.callee.rsplit("::", 1)[-1]],
+                      "`%s` calls %s: the conversion runs inside the timed section of every iteration" % (b.path, c.callee), c.line())
+        drops = [i for i in sorted(b.live) if b.term(i)["k"] == "drop"]
+        ctx.check(not drops, "R02.9", [b.path, "no-drop"], "`%s` drops a value inside the timed section" % b.path, b.where(drops[0]) if drops else None)
+    ctx.anchor("R02.9", "impls of __private::Arg::get", n, 4)
+
+
 def run(ctx, prog, crate):
+    r02_9(ctx, prog, crate)
     r02_8(ctx, prog, crate)
     r02_7(ctx, prog, crate)
     r02_6(ctx, prog, crate)
